@@ -250,14 +250,21 @@ def eval_foreign(c, rec):
         lp = wire.build_packet(11, lit, 'new', chunks=[16, len(lit) - 16])
     else:
         lp = wire.build_packet(11, lit)
-    sigs, ops = [], []
+    sigs, ops, anonymous = [], [], []
     n = len(c['signers'])
     for i, (kid, dt) in enumerate(c['signers']):
         sec = keypool.ref_secret(kid)
         hashed = keypool.std_hashed(1600000000 + dt, sec.pub.fingerprint)
-        body = rsig.sign(sec, 0x00, 8, ('doc', raw), hashed, keypool.sp(16, sec.pub.keyid))
+        unh, opid = keypool.sp(16, sec.pub.keyid), sec.pub.keyid
+        if dt == 5 and i == 0:
+            # RFC 4880 requires no issuer subpacket at all: the one-pass packet then carries the wildcard key id
+            hashed, unh, opid = keypool.sp(2, wire.u32(1600000005)), b'', bytes(8)
+            anonymous.append(kid)
+        elif dt == 1:
+            unh = b''           # issuer named by the (hashed) fingerprint subpacket only
+        body = rsig.sign(sec, 0x00, 8, ('doc', raw), hashed, unh)
         sigs.append(wire.build_packet(2, body, 'old' if hdr == 'old' else 'new'))
-        ops.append(bytes([3, 0, 8, sec.pub.alg]) + sec.pub.keyid)
+        ops.append(bytes([3, 0, 8, sec.pub.alg]) + opid)
     # one-pass i pairs with signature n-1-i
     seq = b''.join(wire.build_packet(4, ops[n - 1 - i] + bytes([1 if i == n - 1 else 0])) for i in range(n)) + lp + b''.join(sigs)
     if hdr == 'indeterminate' and not c['comp'] and not n:
@@ -284,6 +291,8 @@ def eval_foreign(c, rec):
     if len(m.signatures) != n:
         rec.finding('foreign-import', 'signature-count', c, '%d != %d' % (len(m.signatures), n))
     for kid, dt in c['signers']:
+        if kid in anonymous:
+            continue        # nothing tells PGPy which key to try
         try:
             ok = bool(keypool.pgpy_key(keypool.ref_cert(kid, secret=False)).verify(m))
         except Exception as e:   # noqa
